@@ -161,7 +161,10 @@ class Gen:
         if any(small(a) for a in args) or any(r in self.sm for r in refs) \
                 or (op == "pad" and "constant_values" in (params or {})) \
                 or (op == "full" and isinstance(params.get("value"), float)
-                    and 0 < abs(params["value"]) < 1):
+                    and 0 < abs(params["value"]) < 1) \
+                or (op == "arange" and any(
+                    isinstance(params.get(k), float)
+                    and 0 < abs(params[k]) < 1 for k in ("start", "step"))):
             if op not in npref.REDUCE + ("einsum", "matmul", "dot", "vdot",
                                          "csr_matmul") + npref.COMPARE:
                 self.sm.add(idx)
